@@ -56,9 +56,10 @@ theorem quoted_mark1 (w : World K) (k k' : Key) (b : Broker K) (h : Quoted b k')
 
 theorem lastMark_mark1_ne_none (w : World K) (k k' : Key) (b : Broker K) (h : b.lastMark k' ≠ none) :
     (mark1 w k b).lastMark k' ≠ none := by
-  rcases mark1_cases w k b with e | ⟨p, lp, _, _, _, e⟩
+  rcases mark1_cases w k b with e | ⟨p, lp, _, _, _, e⟩ | ⟨_, _, _, e⟩
   · rw [e]; exact h
   · rw [e]; simp only [upd]; split_ifs <;> simp [h]
+  · rw [e]; exact h
 
 theorem foldl_mark1_keeps (w : World K) (l : List Key) (k' : Key) (b : Broker K) (hk : k' ∉ l)
     (h : MarkedAt w b k') : MarkedAt w (l.foldl (fun b k => mark1 w k b) b) k' := by
